@@ -160,6 +160,8 @@ def main():
     jobs, nd = [], {}
     for i, d in enumerate(decks):
         d = adeck.normalise(d)
+        if i % 4 == 3:
+            d = adeck.renumber(d, cmap=lambda n: 123450 + n)      # six-digit cell numbers (LIKE 123451 BUT ..)
         d['pts'] = adeck.grid_points(rng, 70, -5, 13)
         nd[i + 1] = d
         jobs.append({'tid': i + 1, 'deck': d, 'opts': [f for f in common_univ.FLAGS if rng.random() < 0.2]})
